@@ -85,7 +85,7 @@ RULE = (
     "evaluate / evaluate_cffi / tensor_method, a seeded pre-warmed subset, back end llvm (quick "
     "~88%) or cffi; schedule strategies: weighted coin, PCT-style change points, targeted windows, "
     "parking before the k-th shared-state write; 3-5% park sweeps (every k), 10% generation-race "
-    "sweeps (two different never-seen kernels generated at once, the victim parked before each "
+    "sweeps and 3% eviction storms (two different never-seen kernels generated at once, the victim parked before each "
     "access to module-level generator state that a solo generation mutates); "
     "GC injections; heap and capacity knobs. The scheduler pre-empts at line events of tensora/** "
     "and cffi/{recompiler,ffiplatform}.py, at every heap call of a running kernel and at "
